@@ -115,6 +115,11 @@ func (f *localFileEntryFactory) Create(name string, state FileState) (FileEntry,
 	if strings.HasPrefix(name, "/") || strings.HasSuffix(name, "/") || strings.HasPrefix(name, "../") {
 		return nil, ErrInvalidName
 	}
+	// "." and ".." are clean paths too, but they name the state directory itself and
+	// its parent, not an entry below it.
+	if name == "." || name == ".." {
+		return nil, ErrInvalidName
+	}
 	return newLocalFileEntry(state, name, f.GetRelativePath(name)), nil
 }
 
